@@ -12,7 +12,7 @@ from ..gen import build as B, spec as G
 from . import common as C
 
 PID = "C20"
-SHARDS = {"quick": 4, "thorough": 16}
+SHARDS = {"quick": 8, "thorough": 16}
 N = {"quick": 2400, "thorough": 90000}
 
 
@@ -23,7 +23,10 @@ def new_run():
                "validate with the options is compared with the real validate of the explicitly "
                "selected rows (by position: first h, last t, the n positions a position column "
                "samples with the same random_state; each position once); also: result has all rows, "
-               "fixed random_state is deterministic, head=len(D) == no option; pandas and polars; "
+               "fixed random_state is deterministic, head=len(D) == no option; pandas and polars "
+               "(polars schemas carry custom dataframe-level checks that depend on ALL columns shown "
+               "to the check function: width, names, horizontal null counts); the explicit-rows "
+               "reference runs in a fresh thread; "
                "non-trivial = the selection is a strict subset of the rows and the full-frame and "
                "sub-frame verdicts differ or the data has repeated labels / duplicate rows",
                ["sampled positions are those of pandas.Series.sample / polars.DataFrame.sample on a "
@@ -97,6 +100,24 @@ def gen(rng, neutral):
         table["index"] = {"levels": [{"name": None, "phys": "int64", "values": labels}]}
     G.mutate(rng, spec, table, k=rng.choice([1, 2]))
     n = len(table["columns"][0]["values"]) if table["columns"] else 0
+    if neutral and table["columns"] and rng.random() < 0.5:
+        # polars: custom dataframe-level checks whose result depends on ALL the
+        # columns the check function is shown (number, names, a horizontal
+        # aggregate over every column, whatever the types are)
+        w = len(table["columns"])
+        names = [c["name"] for c in table["columns"]]
+        fc = []
+        for kind in rng.sample(["width_eq", "columns_eq", "row_null_count_le", "row_non_null_count_le"],
+                               rng.randint(1, 2)):
+            if kind == "width_eq":
+                fc.append({"kind": kind, "value": w if rng.random() < 0.8 else w + rng.choice([-1, 1])})
+            elif kind == "columns_eq":
+                fc.append({"kind": kind, "value": names if rng.random() < 0.8 else names[::-1] + ["q"]})
+            elif kind == "row_null_count_le":
+                fc.append({"kind": kind, "value": rng.choice([0, 0, 1, w])})
+            else:
+                fc.append({"kind": kind, "value": rng.choice([w, w, w - 1, 1])})
+        spec["pl_frame_checks"] = fc
     h = rng.choice([None, 0, 1, 2, n]) if n else None
     t = rng.choice([None, None, 0, 1, 2])
     k = rng.choice([None, None, 0, 1, 2, n])
@@ -108,6 +129,8 @@ def gen(rng, neutral):
     k = None if k is None else min(k, n)
     if h is None and t is None and k is None:
         h = min(1, n)
+    # falsy-but-legal labels (pandas only)
+    spec["_relabelled"] = bool(G.relabel(rng, spec, table, p=0.2, polars=neutral))
     return spec, table, h, t, k, r
 
 
@@ -162,8 +185,10 @@ def one(run, rng, backend):
         kw["random_state"] = r
     lazy = rng.random() < 0.7
     o_opt = H.run_validate(mk(), data, lazy=lazy, **kw)
-    o_sub = H.run_validate(mk(), sub, lazy=lazy)
-    o_full = H.run_validate(mk(), data, lazy=lazy)
+    # reference side (explicitly selected rows, the whole frame) in a fresh
+    # thread: not influenced by what earlier validations left in this thread
+    o_sub, o_full = H.pristine(lambda: (H.run_validate(mk(), sub, lazy=lazy),
+                                        H.run_validate(mk(), data, lazy=lazy)))
     strict_subset = len(pos) < n
     run.case(canon_hash([backend, spec, table, kw, lazy]),
              strict_subset,
@@ -173,6 +198,12 @@ def one(run, rng, backend):
     for name in kw:
         run.count(f"option:{name}")
     run.count(f"{backend}:compared")
+    if spec.get("pl_frame_checks"):
+        run.count("polars:frame_level_custom_check")
+        if len(kw) - ("random_state" in kw) == 1:
+            run.count("polars:frame_level_custom_check:exactly_one_of_head_tail_sample")
+    if spec.get("_relabelled"):
+        run.count("labels:falsy_label_case")
     if strict_subset and sig(o_full, False) != sig(o_sub, False):
         run.count(f"{backend}:discriminating(full!=sub)")
     if "exc" in (o_sub.kind, o_full.kind):
@@ -239,11 +270,17 @@ def run(run, ctx):
     for i in ctx.cases(N[ctx.tier]):
         rng = ctx.rng(PID, i)
         one(run, rng, "polars" if i % 3 == 2 else "pandas")
+        C.report_context_leaks(run, {"case": i})
+    C.finish_context_monitor(run)
 
 
 def finalize(run, ctx):
     for name, m in [("verdict_compared", 500), ("cells_compared", 40), ("result_rows_checked", 150),
                     ("determinism_checked", 100), ("select_all_checked", 400),
                     ("pandas:discriminating(full!=sub)", 50), ("polars:discriminating(full!=sub)", 20),
-                    ("option:head", 100), ("option:tail", 100), ("option:sample", 100)]:
+                    ("option:head", 100), ("option:tail", 100), ("option:sample", 100),
+                    ("config_monitor:validate_calls_bracketed", 2500),
+                    ("polars:frame_level_custom_check", 70),
+                    ("polars:frame_level_custom_check:exactly_one_of_head_tail_sample", 15),
+                    ("labels:falsy_label_case", 70)]:
         run.floors[name] = m
